@@ -169,6 +169,66 @@ Definition dset (d : dm) (i j : idx) (v : C) : option (dm * option err) :=
     | Er _ => None
     end.
 
+(* ---- contract:  y[p] = sum_{a,b} A[rows_p[a], cols_p[b]] * B_p[a, b]   (without B: sum_a A[rows_p[a], cols_p[a]]) *)
+Definition in_rangeb (n k : Z) : bool := (- n <=? k) && (k <? n).
+Definition pos_of (n k : Z) : nat := Z.to_nat (if k <? 0 then k + n else k).
+
+Definition cidx_ok (n : Z) (P : nat) (ix : option cidx) : bool :=
+  match ix with
+  | None => true
+  | Some i => forallb (fun l => forallb (in_rangeb n) l) (ci_rows i)
+              && Nat.eqb (length (ci_rows i)) (match ci_bs i with None => 1%nat | Some _ => P end)
+  end.
+Definition cmat_ok (P : nat) (mat : option cmat) : bool :=
+  match mat with
+  | None => true
+  | Some m => forallb (wfmb (cm_nr m) (cm_nc m)) (cm_mats m)
+              && Nat.eqb (length (cm_mats m)) (match cm_bs m with None => 1%nat | Some _ => P end)
+  end.
+
+(* the positions selected in an axis of length n for batch item p *)
+Definition sel_pos (ix : option cidx) (p : nat) (n : Z) : list nat :=
+  match ix with
+  | None => seq 0 (Z.to_nat n)
+  | Some i => map (pos_of n) (nth (match ci_bs i with None => 0%nat | Some _ => p end) (ci_rows i) [])
+  end.
+
+Definition dform (d : dm) (mat : option cmat) (rows cols : option cidx) (p : nat) : option C :=
+  let ra := sel_pos rows p (dr d) in
+  let cb := sel_pos cols p (dc d) in
+  match mat with
+  | None => if Nat.eqb (length ra) (length cb)
+            then Some (isum (length ra) (fun a => mget (dmat d) (nth a ra 0%nat) (nth a cb 0%nat))) else None
+  | Some m => if (zlen ra =? cm_nr m) && (zlen cb =? cm_nc m)
+              then Some (isum (length ra) (fun a => isum (length cb) (fun b =>
+                           mget (dmat d) (nth a ra 0%nat) (nth b cb 0%nat) * mget (sel_mat m p) a b)%C))
+              else None
+  end.
+
+Fixpoint map_opt {A B} (f : A -> option B) (l : list A) : option (list B) :=
+  match l with
+  | [] => Some []
+  | x :: l' => match f x, map_opt f l' with Some y, Some r => Some (y :: r) | _, _ => None end
+  end.
+
+Definition dcontract (d : dm) (mat : option cmat) (rows cols : option cidx) : option (res dout) :=
+  if (dr d <? 0) || (dc d <? 0) then None else
+  let fmat := match mat with Some m => cm_f m | None => false end in
+  match batch_shape mat rows cols with
+  | Er e => Some (Er e)                 (* "Batch size of rows/cols not conforming" *)
+  | Ok bso =>
+    let P := match bso with None => 1%nat | Some bs => Z.to_nat (zprod bs) end in
+    if cidx_ok (dr d) P rows && cidx_ok (dc d) P cols && cmat_ok P mat then
+      match map_opt (dform d mat rows cols) (seq 0 P) with
+      | None => None
+      | Some vals => Some (Ok (DVal (match bso with
+                                     | None => OScal (vget vals 0) (fmat || dflag d)
+                                     | Some bs => OBatch bs vals (fmat || dflag d)
+                                     end)))
+      end
+    else None
+  end.
+
 (* ---- programs on a store of dense matrices *)
 Definition dstore := list dm.
 
@@ -240,6 +300,11 @@ Definition dstep (o : op) (s : dstore) : option (dstore * res dout) :=
                 | Some (d', Some e) => Some (dset_slot s tgt d', Er e)
                 | None => None
                 end
+    | None => None
+    end
+  | OContract a mat rows cols =>
+    match nth_error s a with
+    | Some d => match dcontract d mat rows cols with Some r => Some (s, r) | None => None end
     | None => None
     end
   end.
